@@ -3,7 +3,7 @@
 From Coq.Strings Require Import Byte String.
 From Coq Require Import List NArith.
 Import ListNotations.
-From V Require Import lib.Bytes spec.HandlerSpec model.Handler proofs.HandlerProof.
+From V Require Import lib.Bytes spec.HandlerSpec spec.CompSpec model.Handler model.CompModel proofs.HandlerProof proofs.CompProof.
 Open Scope N_scope.
 
 (* For every request (any method, protocol version, target, header fields, body; context live, with a
@@ -115,6 +115,69 @@ Theorem C11_streamed_may_be_partial : forall q : request, exists (c : cfg) (o : 
 Proof. exact streamed_may_be_partial. Qed.
 Print Assumptions C11_streamed_may_be_partial.
 
+(* ---- the components served: compositions of templ's own combinators and generated templates ----
+   The theorems above take a component as what the handler sees of it - chunks written, then an error or
+   not - i.e. they assume Render's contract: an error is returned iff something failed, and a render that
+   did not fail wrote the complete document.  For components built from ComponentFunc, templ.Raw, templ.Join,
+   templ.Flush with children, OnceHandle.Once (with children or WithComponent), generated templates (nested,
+   with children blocks, loops, failing expressions) and writers that fail after n bytes, the contract is
+   spec/CompSpec.v ([ok]: renders completely to a document, [ko]: a failure point is reached - a failing
+   component or expression at any position, the writer's limit, a context already done at a generated
+   template), and the model of the combinators (model/CompModel.v, compared with the real ones on every run)
+   meets it: *)
+Theorem C11_render_contract : forall (c : comp) (d : bool) (st : octx),
+  (forall x st', run d c st = (x, false, st') <-> ok d st c x st') /\
+  (snd (fst (run d c st)) = true <-> ko d st c).
+Proof. intros c d st. split; [intros x st'; apply run_ok_iff | apply run_ko_iff]. Qed.
+Print Assumptions C11_render_contract.
+
+(* every composition either renders to one document or fails, never both *)
+Theorem C11_render_total_exclusive : forall (c : comp) (d : bool),
+  ((exists doc, renders_to d c doc) \/ render_fails d c) /\
+  (forall doc, renders_to d c doc -> ~ render_fails d c) /\
+  (forall doc1 doc2, renders_to d c doc1 -> renders_to d c doc2 -> doc1 = doc2).
+Proof.
+  intros c d. split; [apply render_total|]. split.
+  - intros doc H K. exact (render_exclusive c d doc H K).
+  - intros doc1 doc2 [s1 H1] [s2 H2]. exact (proj1 (ok_det _ _ _ _ _ _ _ H1 H2)).
+Qed.
+Print Assumptions C11_render_total_exclusive.
+
+(* so the buffered handler serving any such composition, to any request, under any configuration, answers
+   with the complete document the composition renders to, or - wherever in it the failure lies - with the
+   error response *)
+Theorem C11_composed_all_or_nothing : forall (q : request) (c : cfg) (t : comp),
+  c_stream c = false ->
+  let r := observe (serve q c (comp_component t)) in
+  (forall doc, renders_to (ctx_done (q_ctx q)) t doc ->
+     all_or_nothing (c_status c) (c_ctype c) (eh_alone q c) doc false r) /\
+  (render_fails (ctx_done (q_ctx q)) t ->
+     forall doc, all_or_nothing (c_status c) (c_ctype c) (eh_alone q c) doc true r).
+Proof. exact composed_all_or_nothing. Qed.
+Print Assumptions C11_composed_all_or_nothing.
+
+Theorem C11_composed_all_or_nothing_on_the_wire : forall (q : request) (c : cfg) (t : comp),
+  c_stream c = false ->
+  let r := client_view q (observe (serve q c (comp_component t))) in
+  let eh := option_map (client_view q) (eh_alone q c) in
+  (forall doc, renders_to (ctx_done (q_ctx q)) t doc ->
+     all_or_nothing_wire (is_head q) (c_status c) (c_ctype c) eh doc false r) /\
+  (render_fails (ctx_done (q_ctx q)) t ->
+     forall doc, all_or_nothing_wire (is_head q) (c_status c) (c_ctype c) eh doc true r).
+Proof. exact composed_all_or_nothing_wire. Qed.
+Print Assumptions C11_composed_all_or_nothing_on_the_wire.
+
+(* The contract is what this rests on: were FlushComponent.Render to keep its children's error to itself
+   (the model variant [run_gen true]), a generated page whose flushed list fails half-way would be sent with
+   the configured success status and a hole at the failure. *)
+Theorem C11_swallowed_child_error_breaks_it :
+  render_fails false holed_page /\
+  let r := observe (serve plain_get cfg_202 (comp_component_sw holed_page)) in
+  r_status r = 202 /\ r_body r = bs "<h1>r</h1><ul><li>row</li><footer>end</footer>" /\
+  forall doc, ~ all_or_nothing 202 (bs "text/html; charset=utf-8") None doc true r.
+Proof. exact swallowed_error_breaks_it. Qed.
+Print Assumptions C11_swallowed_child_error_breaks_it.
+
 (* ---- non-vacuity and witnesses ---- *)
 Definition ex_req (m : string) (s : ctx_state) : request :=
   {| q_method := bs m; q_major := 1; q_minor := 1; q_target := bs "a=1"; q_hdr := [(bs "Accept", bs "*/*")]; q_body := []; q_ctx := s |}.
@@ -192,3 +255,23 @@ Proof. vm_compute. split; reflexivity. Qed.
 Example C11_ex_double_release :
   p_held (prun [EGet 0; ERelTwice 0; EGet 0; EGet 0]%nat) = [0; 0]%nat.
 Proof. vm_compute. reflexivity. Qed.
+(* a composition satisfying the hypotheses of the composed theorem: a once-handle used twice inside a generated
+   template renders its children once; at the top level (a context without a templ value) every time *)
+Example C11_ex_once_in_template :
+  renders_to false (CTempl (CSeq (COnce 0 (CRaw (bs "<s>"))) (COnce 0 (CRaw (bs "<s>"))))) (bs "<s>") /\
+  renders_to false (CSeq (COnce 0 (CRaw (bs "<s>"))) (COnce 0 (CRaw (bs "<s>")))) (bs "<s><s>").
+Proof. split; eexists; apply run_ok_iff; vm_compute; reflexivity. Qed.
+(* failure points: a context already done at a generated template; the writer's limit *)
+Example C11_ex_failure_points :
+  render_fails true (CSeq (CRaw (bs "a")) (CTempl CNop)) /\ ~ render_fails true (CSeq (CRaw (bs "a")) (CRaw (bs "b"))) /\
+  render_fails false (CLimit 3 (CTempl (CRaw (bs "abcd")))) /\ renders_to false (CLimit 4 (CTempl (CRaw (bs "abcd")))) (bs "abcd").
+Proof.
+  split; [apply run_ko_iff; vm_compute; reflexivity|]. split.
+  - intros H. apply run_ko_iff in H. vm_compute in H. discriminate.
+  - split; [apply run_ko_iff; vm_compute; reflexivity|]. eexists; apply run_ok_iff; vm_compute; reflexivity.
+Qed.
+(* with flush.go as it is, the page of the refutation gets the error response *)
+Example C11_ex_holed_page_error_response :
+  observe (serve plain_get cfg_202 (comp_component holed_page))
+  = {| r_status := 500; r_hdr := [(h_ctype, text_plain); (h_nosniff, nosniff)]; r_body := err_body |}.
+Proof. exact holed_page_error_response. Qed.
